@@ -374,9 +374,9 @@ func main() {
 			repos = append(repos, k)
 		}
 		sort.Strings(repos)
-		rounds := r.N(4000, 60000)
+		rounds := r.N(25000, 200000)
 		var wg sync.WaitGroup
-		for g := 0; g < 8; g++ {
+		for g := 0; g < 16; g++ {
 			wg.Add(1)
 			go func(g int) {
 				defer wg.Done()
@@ -400,7 +400,7 @@ func main() {
 					}
 					r.Event("selections-on-a-shared-verifier")
 					if got != want[repo] || skip != (want[repo] == "skip") {
-						r.Violation(map[string]string{"kind": "selection", "phase": "shared-verifier"}, fmt.Sprintf("goroutine %d asked about %s while 7 others asked about other repositories on the same verifier: it was answered with the level %q (skip=%v, err=%v), its statement has %q", g, repo, got, skip, err, want[repo]), nil)
+						r.Violation(map[string]string{"kind": "selection", "phase": "shared-verifier"}, fmt.Sprintf("goroutine %d asked about %s while 15 others asked about other repositories on the same verifier: it was answered with the level %q (skip=%v, err=%v), its statement has %q", g, repo, got, skip, err, want[repo]), nil)
 						return
 					}
 				}
